@@ -212,6 +212,27 @@ def _classify(rec, ref, planted=None):
         rec.label(f"host={planted}")
 
 
+# ------------------------------------------------------------------ attribution predicate (only used if the
+# per-component max_results cut-off is recorded as a known finding instead of being repaired)
+def comp_per_component_cutoff(case, v, m):
+    """True iff the violation is explained by _find_component_aware_subgraph_mappings cutting each pattern
+    component's candidate list at max_results before combining them: a limit-count-comp / limit-subset failure of
+    comp or bt with max_results set, no threshold, a pattern of >= 2 components on the component-aware path, and
+    some component with at least max_results candidates (otherwise nothing was cut)."""
+    if v.clause not in ("limit-count-comp", "limit-subset") or "strategy=all" in v.message:
+        return False
+    cfg = case.get("cfg") or dict(EX_CFG, max_results=1, threshold=None)
+    k = cfg.get("max_results")
+    if k is None or cfg.get("threshold") is not None or "threshold=None" not in v.message:
+        return False
+    host, pattern = cm.to_nx(case["host"]), cm.to_nx(case["pattern"])
+    ref = reference(host, pattern, cfg["node_attrs"], cfg["edge_attrs"])
+    return ref["pcc"] >= 2 and ref["hcc"] >= ref["pcc"] and any(c >= k for c in ref["per_cc"])
+
+
+KNOWN_PREDICATES = {"comp_per_component_cutoff": comp_per_component_cutoff}
+
+
 # ------------------------------------------------------------------ exhaustive slice
 EX_NODE = [dict(element=e, hcount=h) for e in ("C", "N") for h in (0, 1)]
 EX_EDGE = [dict(order=1), dict(order=2)]
